@@ -1240,9 +1240,13 @@ def obs_stress(args):
         ths = [threading.Thread(target=worker, args=(t,), daemon=True) for t in range(nthr)]
         for th in ths:
             th.start()
-        deadline = time.monotonic() + 300
-        for th in ths:
-            th.join(timeout=max(0.0, deadline - time.monotonic()))
+        deadline, first_exit = time.monotonic() + 300, None
+        while any(th.is_alive() for th in ths) and time.monotonic() < deadline:
+            [th for th in ths if th.is_alive()][0].join(timeout=1.0)
+            if first_exit is None and not all(th.is_alive() for th in ths):
+                first_exit = time.monotonic()
+            if first_exit is not None and time.monotonic() - first_exit > 45:      # the others came back long ago (or gave up at the barrier)
+                break
         hung = [t for t, th in enumerate(ths) if th.is_alive()]
         if hung:
             bar.abort()
@@ -1624,6 +1628,10 @@ def run(ctx):
         "thr_late": lambda: ctx.tlc("QuadratureMC.tla", what="self-test: a shared object whose rule is read after configuring violates ThrRefines",
                                     cfg_text=cfg(constants=mc_constants(B, ThrVariant="late", NThr=2), init="InitH", next_="NextH", invariants=["ThrRefines"]),
                                     workers=1, allow_violation=True, coverage=False),
+        "thr_locked": lambda: ctx.tlc("QuadratureMC.tla", what="threads: an implementation may refuse interleavings - the late-reading shared object with configure+use "
+                                                               "under one lock shows only serialised behaviours, all of them sequential (ThrRefines)",
+                                      cfg_text=cfg(constants=mc_constants(B, ThrVariant="locked", NThr=2), init="InitH", next_="NextH", invariants=["ThrRefines"]),
+                                      workers=1, require=["HConstruct", "HStart", "HFinish"]),
         "tab": lambda: ctx.tlc("QuadratureMC.tla", what="export every small table (TAB) + TableLaws",
                                cfg_text=cfg(constants=mc_constants(B, DoExport=True), init="InitD", next_="NextD", invariants=["TableLaws"],
                                             constraints=["Export"]),
@@ -1647,6 +1655,8 @@ def run(ctx):
         raise MachineryError("self-test failed: the floor-division block loop does not violate BlockRefines")
     if "ThrRefines" not in res["thr_late"].violated:
         raise MachineryError("self-test failed: the late-reading shared object does not violate ThrRefines")
+    if res["thr_locked"].violated:
+        raise MachineryError("the late-reading shared object under a lock (interleavings refused) should satisfy ThrRefines")
     scales = res["ret"].records.get("SCALE", [])
     thrs = res["thr"].records.get("THR", [])
     nkv = res["kv"]
@@ -1762,19 +1772,31 @@ def run(ctx):
         if len(tc) > cap:
             tc = random.Random("%s|thrsample" % ctx.seed).sample(tc, cap)
         recs = pmap(obs_thr, tc, chunk=32)
+        nskip = sum(1 for r in recs if r["mode"] == "skipped")
+        recs = [r for r in recs if r["mode"] != "skipped"]
         if not any(len(set(e["t"] for e in r["ev"][:3])) > 1 and r["ev"][1]["op"] == "start" for r in recs):
-            raise MachineryError("no overlapping calls were replayed")
+            if not any(r.get("realised") == "deadlock" for r in recs):
+                raise MachineryError("no overlapping calls were replayed")
         rounds = 60 if ctx.quick else 400
         sc = [(t, k) for t in ("qgauss", "own", "shared") for k in ("data", "func")] + [("gauleg", "data")]
+        nfree = 0
         for j, (t, k) in enumerate(sc):
+            if _THR_POISON:                                   # a deadlock was recorded: further rounds in this process would only hang on it
+                break
             recs += obs_stress((10 ** 6 + j * 10 ** 4, t, k, rounds, ctx.seed))
+            nfree += rounds
         judge(ctx, recs, "judge thread interleavings and free-running rounds (QuadratureTrace)")
         allrecs += recs
         ov = [r for r in recs if r["mode"] == "stepped" and r["ev"][1]["op"] == "start"]
         if ov:
             ctx.sample({"threads": {"target": ov[0]["target"], "ctor": ov[0]["ctor"], "pause_points": ov[0]["pauses"]},
                         "observed": [{f: e[f] for f in THR_FIELDS[e["op"]]} for e in ov[0]["ev"]]})
-        ctx.note(thread_interleavings=len(thrs), stepped_thread_runs=len(tc), free_running_rounds=rounds * len(sc),
+        real = {w: sum(1 for r in recs if r["mode"] == "stepped" and r["realised"] == w) for w in ("as_scheduled", "serialised", "deadlock")}
+        ctx.note(thread_interleavings=len(thrs), stepped_thread_runs=len(tc), free_running_rounds=nfree,
+                 stepped_runs_realised_as_scheduled=real["as_scheduled"],
+                 stepped_runs_serialised_by_the_implementation=real["serialised"],       # a paused thread held a lock the other needed
+                 stepped_runs_deadlocked=real["deadlock"], stepped_runs_skipped_after_deadlock=nskip,
+                 free_running_rounds_deadlocked=sum(1 for r in recs if r["mode"] == "free" and r.get("realised") == "deadlock"),
                  pause_points_per_call={"%s/%s" % k: v for k, v in sorted(_THR_NB.items())})
     # 3b. what the integrand returns: every broadcastable shape x representation (spec -> code)
     if part("ret"):
